@@ -29,6 +29,12 @@ INFO = {
  "C09b": ("verify_sign range check `h >= N` became `h > N`", "h = N: reaches the assert in Fp12::pow - a crash instead of an error"),
  "C17b": ("exch_step_2a skips the on-curve check of R_B when its x coordinate is 0", "an off-curve R_B with x = 0, e.g. (0, 1)"),
  "C20b": ("CBC decrypt pad check `> 0x10` removed (only `== 0` left)", "a 16-byte ciphertext whose last decrypted byte is 17..255: subtraction overflow panic"),
+ "C04b": ("verify_raw checks `sig.len() < 64` instead of `!= 64`", "a valid 64-byte signature followed by trailing bytes (65, 66, 96 .. bytes) is accepted"),
+ "C08c": ("add31 folds the carry with `(c > 0x80000000)` instead of `c >> 31`", "two LFSR operands summing to exactly 2^31 (2^-31 per addition): result 0 instead of 1"),
+ "C11d": ("SM2 point_add decides 'same point' by comparing the raw y coordinates", "the same point in two Jacobian representations (Z1 != Z2): returns infinity instead of 2P"),
+ "C13d": ("SM9 G1 point_add decides 'same point' by comparing the raw Jacobian Y coordinates", "the same point with Z1 != Z2: returns infinity instead of 2P"),
+ "C14b": ("random_u256 fills only buf[1..] from the CSPRNG", "every call: the top byte of every SM2 scalar is zero (in range, but 248 bits of entropy)"),
+ "C15c": ("Exchange::new swaps the two IDs when computing Z_A and Z_B", "the two parties' IDs differ: library-vs-library still agrees, K / S_B / S_A are not those of GB/T 32918.3"),
  "C07b": ("CBC decrypt bounds the PKCS#7 pad byte by the ciphertext length instead of the block size", "a ciphertext of two or more blocks whose last decrypted byte is 17..min(255, length): accepted and truncated instead of an error"),
  "C08b": ("ZUC S-box S0[0x17] changed from 0xa5 to 0xa6", "a byte 0x17 entering S0 inside F (the EEA/EIA vectors in the crate never do; the three published keystream vectors do)"),
  "C10b": ("SM9 decrypt compares only min(|C2|, 32) bytes of C3", "a message shorter than 32 bytes and a C3 modified at a byte index >= |M|"),
@@ -43,7 +49,7 @@ for s in sorted(os.listdir(os.path.join(V, "seeded"))):
         continue
     mp = os.path.join(d, "meta.json")
     meta = json.load(open(mp)) if os.path.exists(mp) else {}
-    prop = s.rstrip("bc")
+    prop = s.rstrip("bcd")
     if s in INFO:
         meta.update({"property": prop, "change": INFO[s][0], "needs_to_manifest": INFO[s][1]})
     meta.setdefault("written_by", "independent sub-agent given only the property text and a scratch worktree")
